@@ -203,6 +203,8 @@ class Folder:
                 for kw in node.keywords:
                     if kw.arg == 'flags':
                         flags = self._flags(kw.value, mod)
+                if isinstance(pat, bytes):
+                    pat = pat.decode('latin-1')
                 if not isinstance(pat, str):
                     raise NotConst('pattern')
                 return Rx(pat, flags)
